@@ -266,6 +266,19 @@ func (t *tlFunc) collectF3() {
 					continue
 				}
 			}
+			if len(mine) == 0 && !isExportedAPI(t.fn) && len(uses) == 0 {
+				// the helper asks the bucket whether it is empty and returns the answer: the decision is its
+				// callers', each of which must branch on that answer
+				if ans := t.emptinessAnswerReturned(base); ans != nil {
+					if bad := callersIgnoringAnswer(t.e, t.fn); bad == "" {
+						site.status, site.note = "ok", "the emptiness of the bucket is returned to the caller ("+t.e.p.ipos(ans)+"), and every caller branches on it"
+					} else {
+						site.status, site.note = "violation", "the emptiness of the bucket is returned to the caller, but "+bad+" does not branch on the answer"
+					}
+					t.e.addSite(site)
+					continue
+				}
+			}
 			if len(mine) == 0 {
 				site.status = "violation"
 				site.note = fmt.Sprintf("the result of %s may be empty and %s a slot table, but it is never tested with isEmpty", opName, map[bool]string{true: "stays in", false: "is stored into"}[inTable && len(uses) == 0])
@@ -572,4 +585,88 @@ func (t *tlFunc) collectF13() {
 			t.e.addSite(site)
 		}
 	}
+}
+
+// emptinessAnswerReturned: a call isEmpty()/IsEmpty() on the subject whose boolean result the function returns
+func (t *tlFunc) emptinessAnswerReturned(subj ssa.Value) *ssa.Call {
+	for _, b := range t.fn.Blocks {
+		if t.dead[b] {
+			continue
+		}
+		for _, ins := range b.Instrs {
+			c, ok := ins.(*ssa.Call)
+			if !ok || c.Referrers() == nil {
+				continue
+			}
+			name := ""
+			var recv ssa.Value
+			if c.Call.IsInvoke() {
+				name, recv = c.Call.Method.Name(), c.Call.Value
+			} else if f := c.Call.StaticCallee(); f != nil && f.Signature.Recv() != nil && len(c.Call.Args) > 0 {
+				name, recv = f.Name(), c.Call.Args[0]
+			}
+			if (name != "isEmpty" && name != "IsEmpty") || recv == nil {
+				continue
+			}
+			if r := stripAssert(recv); r != subj && !sameThroughPhi(r, subj) {
+				continue
+			}
+			for _, r := range *c.Referrers() {
+				if ret, ok := r.(*ssa.Return); ok {
+					for _, rv := range ret.Results {
+						if rv == ssa.Value(c) {
+							return c
+						}
+					}
+				}
+			}
+		}
+	}
+	return nil
+}
+
+// callersIgnoringAnswer: a static caller of f (in scope) whose use of f's result is not a branch condition
+func callersIgnoringAnswer(e *tlEngine, f *ssa.Function) string {
+	n := 0
+	for _, g := range e.fns {
+		for _, b := range g.Blocks {
+			for _, ins := range b.Instrs {
+				c, ok := ins.(*ssa.Call)
+				if !ok || c.Call.StaticCallee() != f {
+					continue
+				}
+				n++
+				branches := false
+				var walk func(v ssa.Value, d int)
+				walk = func(v ssa.Value, d int) {
+					if d > 3 || v.Referrers() == nil {
+						return
+					}
+					for _, r := range *v.Referrers() {
+						switch x := r.(type) {
+						case *ssa.If:
+							branches = true
+						case *ssa.UnOp:
+							walk(x, d+1)
+						case *ssa.Extract:
+							walk(x, d+1)
+						case *ssa.Return:
+							// handed further up: accepted only if the caller is itself unexported (one more level)
+							if !isExportedAPI(g) {
+								branches = callersIgnoringAnswer(e, g) == ""
+							}
+						}
+					}
+				}
+				walk(c, 0)
+				if !branches {
+					return fname(g)
+				}
+			}
+		}
+	}
+	if n == 0 {
+		return "no caller"
+	}
+	return ""
 }
